@@ -22,6 +22,7 @@ type tcpTransport struct {
 	ctxConn       *ctxConn
 	encoder       *json.Encoder
 	sent          *countingWriter
+	sendErr       error // the error of the send operation that left a partial envelope on the connection
 	decoder       *json.Decoder
 	limitedReader io.LimitedReader
 	encryption    SessionEncryption
@@ -145,6 +146,11 @@ func (t *tcpTransport) Send(ctx context.Context, e envelope) error {
 		return err
 	}
 
+	if t.sendErr != nil {
+		// An earlier envelope was written only in part: anything sent now would be appended to it
+		return fmt.Errorf("tcp transport: send: %w", t.sendErr)
+	}
+
 	t.ctxConn.SetWriteContext(ctx)
 
 	t.sent.n = 0
@@ -152,7 +158,9 @@ func (t *tcpTransport) Send(ctx context.Context, e envelope) error {
 		if errors.Is(err, io.EOF) {
 			t.eof = true
 		}
-		if t.sent.n == 0 {
+		if t.sent.n > 0 {
+			t.sendErr = err
+		} else {
 			// Nothing of the envelope reached the connection (for instance, the context was done
 			// before the write), so the stream is intact and the next envelopes can still be sent.
 			// The encoder would keep returning this error, so it is replaced.
@@ -289,6 +297,7 @@ func (t *tcpTransport) setConn(conn net.Conn) {
 	// Sets the encoder to be used for sending envelopes
 	t.sent = &countingWriter{w: writer}
 	t.encoder = json.NewEncoder(t.sent)
+	t.sendErr = nil
 
 	if t.ReadLimit == 0 {
 		t.ReadLimit = DefaultReadLimit
